@@ -114,8 +114,9 @@ def check_pair(ctx, svc, inj, snap, before, req, desc=None, only=None):
         stats.count('%s -> %s' % (event_name, outcome))
         if k <= last_commit and cb != cr:
             stats.nontriv(stable_hash([desc, req, k]))
-            if len(stats.samples) < stats.MAX_SAMPLES and outcome != \
-                    'as-before':
+            if len(stats.samples) < stats.MAX_SAMPLES and (
+                    outcome != 'as-before' or k == last_commit or
+                    k == last_commit // 2):
                 stats.sample({'request': '%s %s @%s' % (req['m'], req['p'],
                                                         req['v']),
                               'crash_points': n, 'killed_at': k,
